@@ -159,3 +159,17 @@ impl<N, E, Ix: IndexType> ToGraph6 for Csr<N, E, Undirected, Ix> {
         get_graph6_representation(self)
     }
 }
+
+#[cfg(feature = "verif_hooks")]
+pub(crate) mod verif_hooks {
+    use alloc::{string::String, vec::Vec};
+    pub fn enc_graph_order_as_bits(order: usize) -> Vec<usize> {
+        super::get_graph_order_as_bits(order)
+    }
+    pub fn enc_number_as_bits(n: usize, bits_length: usize) -> Vec<usize> {
+        super::get_number_as_bits(n, bits_length)
+    }
+    pub fn enc_bits_to_ascii(bits: Vec<usize>) -> String {
+        super::bits_to_ascii(bits)
+    }
+}
